@@ -187,6 +187,9 @@ Proof.
   - ext_solve.
   - ext_solve.
   - unfold op_lens, with_view, fail. brk; ext_solve.
+  - unfold op_search_fwd, with_view, fail, co_opt, co_int. brk; ext_solve.
+  - unfold op_search_fwd, with_view, fail, co_opt, co_int. brk; ext_solve.
+  - unfold op_lastindexof, with_view, fail, co_opt, co_int. brk; ext_solve.
 Qed.
 
 Lemma jlen_nonneg : forall s0 b, 0 <= jlen s0 b.
